@@ -386,6 +386,32 @@ def for_bound_not_live(source, fname, globals_truth):
     return False
 
 
+def loop_live_out_dropped(source, fname, globals_truth):
+    """A loop whose body assigns a variable that is live after the loop while the real liveness analysis does not keep it
+    live at the end of the body (the fixpoint iteration of `for`/`while` replaces live_out by the live-in of the body):
+    an `if` inside the body then does not list it as an output (and before the loop it is not live either)."""
+    import ast
+    from onnxscript._internal import analysis, sourceinfo
+    try:
+        tree = ast.parse(source)
+        f_ast = [n for n in tree.body if isinstance(n, ast.FunctionDef) and n.name == fname][0]
+        an = analysis.AstAnalyzer(f_ast, sourceinfo.formatter(source), dict(globals_truth))
+        for node in ast.walk(f_ast):
+            if isinstance(node, (ast.For, ast.While)) and node.body:
+                lo = an.live_out(node)
+                last = node.body[-1]
+                if isinstance(last, ast.If) and len(last.body) == 1 and isinstance(last.body[0], ast.Break) and len(node.body) > 1:
+                    last = node.body[-2]
+                lb = an.live_out(last)
+                if lo is None or lb is None:
+                    continue
+                if (set(lo) & set(an.assigned_vars(node.body))) - set(lb):
+                    return True
+    except Exception:  # noqa: BLE001
+        return False
+    return False
+
+
 def if_test_parameter_shadows_global(source, fname, module_names):
     """An `if p:` whose test is a parameter of the function (never assigned in the body) while the module also has a
     global called p: AstAnalyzer._compute_constant_if_conditions only excludes names assigned in the body, so the
